@@ -244,8 +244,9 @@ def manager_cells():
                  'delete': ['single']}[method]
         for a in allowed:
             for mode in modes:
-                if method == 'upload' and mode != 'single' and a in NEEDS_CRT:
-                    continue
+                if method == 'upload' and mode == 'multi' and a in NEEDS_CRT:
+                    continue  # (botocore cannot compute these part checksums without awscrt; the failing-part mode below still shows
+                    # what CreateMultipartUpload / UploadPart / AbortMultipartUpload are called with)
                 for ps in ((False, True) if method in ('download', 'copy') else (False,)):
                     cells.append((method, mode, [a], ps))
     # checksum-related subsets for uploads
@@ -254,9 +255,12 @@ def manager_cells():
         for sub in itertools.combinations(names, k):
             for full in [None] + FULL:
                 for mode in ('single', 'multi'):
-                    if mode == 'multi' and full in NEEDS_CRT:
-                        continue  # botocore cannot compute these part checksums without awscrt (not installed)
                     args = list(sub) + ([full] if full else [])
+                    if mode == 'multi' and full in NEEDS_CRT:
+                        # botocore cannot compute these part checksums without awscrt (not installed): only the failing-part mode
+                        if 'ChecksumAlgorithm' not in sub:
+                            cells.append(('upload', 'multi-fail', args, False))
+                        continue
                     if len(args) >= 2 or not args:
                         cells.append(('upload', mode, args, False))
     # a few multi-argument cells
